@@ -39,6 +39,9 @@ type ParamSpec struct {
 	Spacing uint32 `json:"spacing,omitempty"` // seconds between prefix blocks (default 600)
 	Signed  bool   `json:"signed,omitempty"`  // outputs may also be P2PKH / P2WPKH / P2SH-P2WPKH / P2TR (signed by the reference signer)
 	PowBits uint32 `json:"powbits,omitempty"`
+	// Testnet: the chain is a test network (gocoin tells by the first byte of the genesis hash): a block more than 20
+	// minutes after its parent carries the proof-of-work limit as its target
+	Testnet bool `json:"testnet,omitempty"`
 }
 
 type OutSpec struct {
@@ -171,6 +174,10 @@ func Params(ps ParamSpec) *consensus.Params {
 	if ps.PowBits != 0 {
 		p.PowLimitBits = ps.PowBits
 		p.PowLimit, _, _ = consensus.SetCompact(ps.PowBits)
+	}
+	if ps.Testnet {
+		p.AllowMinDifficulty = true
+		p.GenesisHash[0] = 0x43
 	}
 	return p
 }
@@ -1300,7 +1307,7 @@ func (s *Sim) buildBlock(op Op) *MNode {
 	c.segwit = s.P.SegwitHeight != 0 && height >= s.P.SegwitHeight
 	c.list, c.immature = s.sortedCands(base.View, height, c.segwit)
 
-	hdr := wire.Header{Version: 4, PrevBlock: parent.Idx.Hash, Bits: consensus.NextWorkRequired(parent.Idx, s.P)}
+	hdr := wire.Header{Version: 4, PrevBlock: parent.Idx.Hash}
 	hdr.Time = c.mtp + 1 + uint32(mod(op.DT, 1200))
 	if hdr.Time <= parent.Idx.Header.Time && op.DT%3 != 0 {
 		hdr.Time = parent.Idx.Header.Time + 1 + uint32(mod(op.DT, 1200))
@@ -1308,6 +1315,17 @@ func (s *Sim) buildBlock(op Op) *MNode {
 	if op.Step != 0 {
 		hdr.Time = parent.Idx.Header.Time + op.Step
 	}
+	if s.P.AllowMinDifficulty && op.Step == 0 {
+		// on a test network the distance to the PARENT decides the target: every third block comes more than 20
+		// minutes after it (a minimum-difficulty block), some exactly at the boundary
+		switch mod(op.Arg+op.DT, 6) {
+		case 0, 1:
+			hdr.Time = parent.Idx.Header.Time + 1201 + uint32(mod(op.DT, 600))
+		case 2:
+			hdr.Time = parent.Idx.Header.Time + 1200
+		}
+	}
+	hdr.Bits = consensus.NextWorkRequiredAt(parent.Idx, s.P, hdr.Time)
 
 	for _, ts := range op.Txs {
 		c.addTx(ts, true)
